@@ -9,6 +9,7 @@ line/col/source line agree with my splitter; str(e) and e.render() return.
 """
 from __future__ import annotations
 
+import os
 import sys
 
 from hypothesis import strategies as st
@@ -27,7 +28,8 @@ RULE = ('(a) ~25 fixed grammars (meta expressions @int @uint @float @bool @name 
         'deletions, transpositions and replacements biased to syntax characters, given to tatsu.compile. Oracle: the call returns or raises '
         'a tatsu.exceptions type (FailedParse family for input); no other exception type, no RecursionError for non-left-recursive grammars, '
         'no hang (10 s alarm on <= 60-character inputs); for a FailedParse: 0 <= pos <= len(text), info.line/col/text agree with my splitter '
-        'at min(pos, len-1), str(e) and e.render() return. non-trivial = the parse got past offset 0, or the mutated grammar is within 3 edits '
+        'at min(pos, len-1), str(e) and e.render() return. plus coverage-guided campaigns (atheris/libFuzzer, in-process, oracle inside the target, seeded and empty corpora, fixed -runs and -seed): '
+        'bytes -> (grammar, route, parseinfo, text) and bytes -> grammar text. non-trivial = the parse got past offset 0, or the mutated grammar is within 3 edits '
         'of a valid one; distinct = distinct (grammar id, text) / distinct mutated grammar text')
 ASSUMPTIONS = [
     'exception classes defined in tatsu.exceptions (TatSuException subclasses) are "TatSu\'s own exception types"',
@@ -300,13 +302,86 @@ def valid_grammars():
 
 def plan(tier):
     n = 1500 if tier == 'quick' else 20000
-    return [dict(kind='texts', n=n) for _ in range(10)] + [dict(kind='grammars', n=max(40, n // 3)) for _ in range(6)]
+    shards = [dict(kind='texts', n=n) for _ in range(10)] + [dict(kind='grammars', n=max(40, n // 3)) for _ in range(6)]
+    # coverage-guided campaigns (atheris/libFuzzer) with the same oracle inside the target
+    runs = 4000 if tier == 'quick' else 400000
+    shards += [dict(kind='atheris', n=runs, mode='texts', job=0)]
+    if tier == 'thorough':
+        shards += [dict(kind='atheris', n=runs, mode='texts', job=1), dict(kind='atheris', n=runs // 20, mode='grammars', job=2),
+                   dict(kind='atheris', n=runs // 20, mode='grammars', job=3)]
+    return shards
 
 
-def run_shard(sh, kind, n):
+def run_shard(sh, kind, n, **kw):
     if kind == 'texts':
         return run_texts(sh, n)
+    if kind == 'atheris':
+        return run_atheris(sh, n, **kw)
     return run_grammars(sh, n)
+
+
+def run_atheris(sh, runs, mode, job):
+    """one libFuzzer campaign in a subprocess; findings are re-checked here before they are recorded"""
+    import json
+    import shutil
+    import subprocess
+    import tempfile
+    import time
+    try:
+        import atheris  # noqa: F401
+    except Exception as e:
+        sh.note(f'atheris not importable ({type(e).__name__}): coverage-guided tier skipped')
+        return
+    tmp = tempfile.mkdtemp(prefix='vf08fz_')
+    try:
+        corpus = os.path.join(tmp, 'corpus')
+        out = os.path.join(tmp, 'out')
+        os.makedirs(corpus)
+        if job % 2 == 0:   # even jobs start from seeds, odd jobs from the empty corpus
+            if mode == 'texts':
+                k = 0
+                for gi, (gid, _) in enumerate(FIXED):
+                    for sd in SEEDS.get(gid, []):
+                        for rb in (0, 3):
+                            with open(os.path.join(corpus, f's{k}'), 'wb') as f:
+                                f.write(bytes([gi, rb]) + sd.encode('utf-8'))
+                            k += 1
+            else:
+                for k, (gid, g) in enumerate(valid_grammars()):
+                    if len(g) < 400:
+                        with open(os.path.join(corpus, f'g{k}'), 'wb') as f:
+                            f.write(g.encode('utf-8'))
+        remaining = max(20, int(sh.deadline - time.time()) - 15)
+        cmd = [sys.executable, '-W', 'ignore', '-m', 'vf.fuzz08', mode, out, f'-runs={runs}', f'-seed={1 + (sh.seed * 31 + job) % 2**31}',
+               '-max_len=90' if mode == 'texts' else '-max_len=400', f'-max_total_time={remaining}', '-timeout=25', '-rss_limit_mb=4096', corpus]
+        t0 = time.time()
+        try:
+            r = subprocess.run(cmd, stdout=subprocess.PIPE, stderr=subprocess.STDOUT, text=True, timeout=remaining + 60)
+            tail = r.stdout[-600:]
+        except subprocess.TimeoutExpired:
+            tail = 'campaign killed by the harness timeout'
+        stats = {}
+        try:
+            stats = json.load(open(os.path.join(out, 'stats.json')))
+        except Exception:
+            pass
+        execs = int(stats.get('execs', 0))
+        sh.evaluations += execs
+        sh.classes[f'atheris:{mode}:execs'] += execs
+        sh.nontrivial.add(hash(('atheris', mode, job, execs)))
+        sh.note(f'atheris {mode} job {job}: {execs} executions in {time.time() - t0:.0f}s')
+        if not execs:
+            sh.note('atheris produced no executions: ' + tail.replace('\n', ' | ')[-300:])
+        for fn in sorted(os.listdir(out)) if os.path.isdir(out) else []:
+            if not fn.startswith('finding-'):
+                continue
+            data = json.load(open(os.path.join(out, fn)))
+            case, detail = data['case'], data['detail']
+            d = replay(case)          # re-check without instrumentation
+            if d is not None:
+                sh.fail('atheris:' + d['bucket'], case, d)
+    finally:
+        shutil.rmtree(tmp, ignore_errors=True)
 
 
 def run_texts(sh, n):
